@@ -104,6 +104,7 @@ type Fault struct {
 	Errno int    `json:"errno"`           // errno to return
 	Class string `json:"class,omitempty"` // restrict to descriptors of this kind: stream|listener|udp|eventfd ("" any)
 	State bool   `json:"state,omitempty"` // stateful: also mark the socket as reset so later calls and epoll agree
+	Retry bool   `json:"retry,omitempty"` // a condition the code declares retryable: the descriptor is not a victim
 }
 
 // Kernel is the simulated kernel of one run.
@@ -346,20 +347,27 @@ func (k *Kernel) use(call string, fd int, res string) {
 
 // fault consults the injected-fault list for one call of a site.
 func (k *Kernel) fault(site string, f *File) (Errno, *Fault) {
+	class := ""
+	if f != nil {
+		class = f.kind.String()
+	}
 	k.siteCount[site]++
-	n := k.siteCount[site]
+	k.siteCount[site+"/"+class]++
+	n, nc := k.siteCount[site], k.siteCount[site+"/"+class]
 	for i := range k.faults {
 		ft := &k.faults[i]
-		if ft.Site == site && ft.Nth == n {
-			if ft.Class != "" && (f == nil || f.kind.String() != ft.Class) {
-				continue
-			}
-			k.FaultsFired[site+":"+unix.ErrnoName(Errno(ft.Errno))]++
-			if f != nil {
-				k.faulted[f] = true
-			}
-			return Errno(ft.Errno), ft
+		if ft.Site != site {
+			continue
 		}
+		// with a class the index counts calls on descriptors of that class only
+		if ft.Class != "" && (ft.Class != class || ft.Nth != nc) || ft.Class == "" && ft.Nth != n {
+			continue
+		}
+		k.FaultsFired[site+":"+unix.ErrnoName(Errno(ft.Errno))]++
+		if f != nil && !ft.Retry {
+			k.faulted[f] = true
+		}
+		return Errno(ft.Errno), ft
 	}
 	return 0, nil
 }
